@@ -631,6 +631,7 @@ let exec (s : t) (verbose : bool) (f : string array) (obs : string option) : str
        Printf.sprintf "%d %s" (List.length h.hf_recs) (md5hex (Buffer.contents b))
      | Some { m_marker = Some _; m_hint = None; _ } -> "nohint"
      | _ -> "none")
+  | "straylock" -> ""
   | "shardcount" ->
     (* the request may exceed OCaml's int: parsed as a Coq integer *)
     let a = f.(2) in
